@@ -19,19 +19,19 @@ TEXT = {
          "Exact comparison after synctest quiescence at every step of histories up to 25 ops from up to 3 sources; interleavings are sequentialised by the harness (plus forced windows), not enumerated."),
  "C06": ("rapid stateful histories inside a synctest bubble; a FIFO model of the callback goroutine predicts the exact global call list; registrations are forced into the store/event window by parking the monitor at a schedule point, slow callbacks park the callback goroutine; overflow histories check that delivered versions are never reordered",
          "The whole ordered list of callback invocations (who, old, new by pointer identity) must equal the model's at every quiescent point; both race orders of store / registration / event are generated deliberately. Bounded histories, queue kept below the documented overflow."),
- "C07": ("rapid stateful histories inside a synctest bubble; caller contexts cancelled before submission or while the monitor is parked in Verify / after the store / before the reply; oracle = exact model + monitor-loop counter + synctest deadlock detection; unstackable values and rejected blocking reports while the callback queue is full",
+ "C07": ("rapid stateful histories inside a synctest bubble; caller contexts cancelled before submission or while the monitor is parked in Verify / after the store / before the reply; oracle = exact model + monitor-loop counter + synctest deadlock detection; unstackable values and rejected blocking reports while the callback queue is full; callers with endless contexts waiting for a busy monitor; blocking reports racing Events readers inside one bubble (schedule sampled, verdict by deadlock detection)",
          "Checks read-your-write at return, error/view coupling on rejection, context errors, and that the monitor returns to its loop after an abandoned caller (an unbuffered reply channel is caught). Windows are forced by hooks; other interleavings are sampled."),
  "C08": ("rapid histories ending in a shutdown (cancel or all watchers Done) followed by late API calls under virtual-time contexts, plus free-running multi-goroutine op mixes; oracle = no panic, monitor exits, late calls fail by their deadline, synctest deadlock and goroutine-leak detection; Blank.SetSource/Done scripts after failed or abandoned calls; a structural wedge watchdog (goroutine states, not elapsed time) turns a leaked lock inside a bubble into a replayable failure",
          "Deadlock/leak freedom is decided exactly per explored execution by testing/synctest; the set of executions is sampled (controlled shutdown histories + free-running actors), so rare interleavings may be missed."),
- "C09": ("rapid stateful histories over all Delay x Suppress combinations with and without watchers; exact state machine over the Verify log, EnableVerification results and the global-callback list; the same state machine for a config type without a Verify method",
+ "C09": ("rapid stateful histories over all Delay x Suppress combinations with and without watchers; exact state machine over the Verify log, EnableVerification results and the global-callback list; the same state machine for a config type without a Verify method and for histories with values that cannot be stacked; lagging callback goroutines",
          "Small state space explored densely (thousands of op sequences of length <=12): Verify never before enable, enable verifies exactly the installed pointer, failure keeps the delay, callbacks withheld iff delay in force and suppress option."),
- "C20": ("rapid differential test: a transforming source with 9 mangler lists around static/watching/failing inner sources vs an unwrapped Dials fed natively, model-based scripts of SetSource/Done on a Blank (inner watchers that report at once or later), all inside synctest bubbles; one transforming decoder value reused for several config types against natively filled values",
+ "C20": ("rapid differential test: a transforming source with 9 mangler lists around static/watching/failing inner sources vs an unwrapped Dials fed natively, model-based scripts of SetSource/Done on a Blank (inner watchers that report at once or later), all inside synctest bubbles; one transforming decoder value reused for several config types against natively filled values; reflect-built types whose tags are not in the announced casing (the translation error must be propagated)",
          "Views behind the wrapper must equal the unwrapped reference and a pure model after the initial stack and every update; errors must surface; Blank's delegation/ownership rules are checked against a small reference model. Mangler lists come from a fixed menu."),
  "C10": ("rapid property tests: generated struct types x mangler chains (the 15 shipped chain variants built from the exported constructors, plus random sub-chains of all nine manglers, optionally two stacked transformers); a descriptor-level model of each mangler locates translated fields by documented key, fills a subset, reverse-translates",
          "Result type must equal the pointerified original exactly, each written leaf holds the value converted back, every other leaf is nil, parents allocated iff a child is set, the all-empty value reverses to all-nil; TranslateType's key set must equal the model's. Bounded shapes; key words known by construction."),
  "C11": ("rapid property test of the environment source: generated struct types with dials tags in four spellings at any level, dialsenv tags, prefix, noise variables and bad values; expected variable names and value texts built by the harness, never by the library's case decoders or parsers",
          "A leaf must be set iff its by-construction variable is present, to exactly the generated value; everything else nil; unparsable / out-of-range text is an error. Process environment is set and restored per case; cases run sequentially."),
- "C12": ("rapid property tests for both flag packages: generated struct types x template defaults x name configs x argv (subset, repeats, order, all spellings); names, advertised defaults and values by construction; result stacked between a lower and a higher layer",
+ "C12": ("rapid property tests for both flag packages: generated struct types x template defaults x name configs x argv (subset, repeats, order, all spellings); names, advertised defaults and values by construction; result stacked between a lower and a higher layer; std flag source also on FlagSets where leaf flags already exist",
          "Flag names, default strings, set/unset pattern, accumulation of repeated collection flags and range errors are predicted by harness code that never calls dials; bounded shapes, sampled."),
  "C13": ("rapid differential test: a generated data tree rendered by the harness's own emitters into JSON, YAML, TOML and Cue, decoded by the four decoders (bare, set->slice wrapped, ez-wrapped), compared with the by-construction value and pairwise after stacking; plus type-directed single-token corruptions that must yield an error and no value",
          "Each decoder is compared with an expected value built from the generated tree (absent key => unset) and with the other three; corruptions are drawn per leaf type and format. Types are restricted to what all four formats can spell (assumptions list the third-party limits)."),
@@ -41,7 +41,7 @@ TEXT = {
          "Pure functions: hundreds of thousands of generated values / literals per run; oracle is parse(canonical(v)) == v and big-integer / exact float range arithmetic independent of strconv's range handling."),
  "C16": ("native go fuzz targets (coverage-guided, thorough tier) and their rapid twins (quick tier) for parse.String at 72 types, the splitters, the 8 case decoders, ParsingDuration, the four decoders on raw bytes, env values and flag argv; plus rapid type-side checks feeding valid input through env / flag / pflag / decoders / mangler chains into types whose leaves are user-defined named types, user pointers and embedded structs",
          "In-target oracle: no panic, the call returns (20 s hang guard, 3 GiB heap watchdog), and on success the value has the requested type. Fuzzing cannot be pinned to a seed; saved failing inputs are the reproducible unit. One third-party finding (Cue evaluator memory blow-up) is listed as known and excluded by construction."),
- "C17": ("rapid property tests on a real directory with a real WatchingSource in real time: histories of 1..12 file operations (in-place, rename-over, delete+recreate, Kubernetes ..data/..dir swap, plain symlink retarget; new / same / malformed / restored content; pauses 0/1/30 ms), JSON and YAML; convergence decided by polling plus the parked-goroutines rule, never by a bare timeout",
+ "C17": ("rapid property tests on a real directory with a real WatchingSource in real time: histories of 1..12 file operations (in-place, rename-over, delete+recreate, Kubernetes ..data/..dir swap, plain symlink retarget; new / same / malformed / restored content; pauses 0/1/30 ms), JSON and YAML; optionally a second watched file and a leading Blank that calls Done in the same Dials; convergence decided by polling plus the parked-goroutines rule, never by a bare timeout",
          "After the last operation the view must equal decode(final content) over the defaults, or the last good config with a decoder error delivered; identical-bytes atomic replacement must not create a version (serial barrier argument, no wall-clock bound); after cancel WG.Wait returns, no file/fsnotify goroutine and no inotify descriptor remains. Kernel event timing is sampled, not owned; an unsettled wait is inconclusive (exit 2), never a violation."),
  "C18": ("rapid property tests of the ez entry points: per leaf a subset of {default, file, env, flag} with by-construction distinct values, four formats and all entry points, path from default/env/flag with decoy files, missing/malformed files, content-dependent Verify with a receiver log; watch-off cases inside a synctest bubble, watch-on cases in real time with later atomic file replacements",
          "First view must be flag > env > file > default per leaf; every Verify receiver must be a full stack (never the file-less intermediate); Verify failure is the entry point's error; nothing pending on Events / global callbacks at return; rewrites converge under the same precedence. No bare timeout is a violation (parked-goroutines rule, else inconclusive)."),
